@@ -5,6 +5,8 @@
 package byz
 
 import (
+	"bytes"
+	"encoding/hex"
 	"encoding/json"
 	"fmt"
 	"os"
@@ -12,6 +14,7 @@ import (
 	"sync"
 	"time"
 
+	"go.sia.tech/core/types"
 	"verif/harness/lab/chainlab"
 	"verif/harness/lab/p2plab"
 	"verif/harness/mon"
@@ -40,12 +43,12 @@ func parallel(n, w int, fn func(i int)) {
 }
 
 type nodeReport struct {
-	Node       string              `json:"node"`
-	Calls      []p2plab.CallRec    `json:"last_calls,omitempty"`
-	Trajectory []p2plab.TipSample  `json:"tip_changes,omitempty"`
-	Bans       []p2plab.BanRecord  `json:"bans,omitempty"`
-	Tip        int                 `json:"tip_node"`
-	TipHeight  uint64              `json:"tip_height"`
+	Node       string             `json:"node"`
+	Calls      []p2plab.CallRec   `json:"last_calls,omitempty"`
+	Trajectory []p2plab.TipSample `json:"tip_changes,omitempty"`
+	Bans       []p2plab.BanRecord `json:"bans,omitempty"`
+	Tip        int                `json:"tip_node"`
+	TipHeight  uint64             `json:"tip_height"`
 }
 
 func reportOf(n *p2plab.Node) nodeReport {
@@ -60,6 +63,10 @@ func countMonitor(r *mon.Run, n *p2plab.Node) {
 	calls, audits, samples, moves, reorgs, depth := n.Mon.Stats()
 	for k, v := range calls {
 		r.Count("manager_calls_audited:"+k, v)
+	}
+	if rp := n.Mon.Recovered(); len(rp) > 0 {
+		r.Count("manager_panics_recovered_by_rpc_handler", len(rp))
+		fmt.Printf("note: %s: manager panic inside an RPC handler (recovered by the syncer): %v\n", n.Name, rp)
 	}
 	r.Count("audits_run", audits)
 	r.Count("tip_samples", samples)
@@ -135,4 +142,12 @@ func banReasonClass(reason string) string {
 		}
 	}
 	return "other"
+}
+
+func chainlabEncode(v types.EncoderTo) string {
+	var buf bytes.Buffer
+	e := types.NewEncoder(&buf)
+	v.EncodeTo(e)
+	e.Flush()
+	return hex.EncodeToString(buf.Bytes())
 }
